@@ -146,7 +146,10 @@ func (g *Gen) genFunc(fs *FuncSpec) {
 			_ = c
 		}
 	}
+	g.postStart = len(g.s.lines)
+	defer func() { g.postStart = 0 }()
 	for n, r := range f.rets {
+		g.retCut = r.cut
 		rv := map[string]CV{}
 		for k, v := range vars {
 			rv[k] = v
@@ -372,6 +375,12 @@ func (f *frame) invEnv(st *State, pc string, hyp bool, li *loopInfo) *Env {
 	// a parameter the body re-assigns denotes its current value (its naive-form cell)
 	for _, p := range f.fn.Params {
 		if c := f.cells[p.Name()]; c != nil && f.paramCellMutable(p, c) {
+			// ... and its entry value is available as <name>0
+			if v, ok := vars[p.Name()]; ok {
+				if _, clash := vars[p.Name()+"0"]; !clash && f.cells[p.Name()+"0"] == nil {
+					vars[p.Name()+"0"] = v
+				}
+			}
 			delete(vars, p.Name())
 		}
 	}
